@@ -139,18 +139,18 @@ Theorem key_order_independent (H : str -> str) fa a fb b :
 Proof.
   intros (E1 & E2 & P3 & P4 & P5 & P6 & E7 & F).
   assert (Ed : encode_def a = encode_def b).
-  { unfold encode_def, comps.
+  { unfold encode_def.
     rewrite E1, E2, E7, (sort_strs_canonical _ _ P3), (sort_strs_canonical _ _ P4),
-      (sort_strs_canonical _ _ P5), (sort_strs_canonical _ _ (Permutation_map kv P6)).
+      (sort_strs_canonical _ _ P5), (sort_strs_canonical _ _ (Permutation_map fp_item P6)).
     reflexivity. }
-  assert (Ef : encode_files fa a = encode_files fb b).
-  { unfold encode_files, file_parts. rewrite <- (sort_strs_canonical _ _ P3). f_equal.
-    apply map_ext_in. intros p Hp. unfold file_bytes. rewrite (F p); [reflexivity|].
+  assert (Ef : encode_files H fa a = encode_files H fb b).
+  { unfold encode_files. rewrite <- (sort_strs_canonical _ _ P3). f_equal.
+    apply map_ext_in. intros p Hp. unfold file_item. rewrite (F p); [reflexivity|].
     apply (Permutation_in _ (sort_strs_perm _)); exact Hp. }
   unfold change_key. rewrite (no_inputs_perm _ _ P3), Ed, Ef. reflexivity.
 Qed.
 
-(* ------------------------------------------------------------------ decoding helpers *)
+(* ------------------------------------------------------------------ decoding: frames *)
 Lemma first_split_eq c (a b a' b' : str) :
   ~ In c a -> ~ In c a' -> a ++ c :: b = a' ++ c :: b' -> a = a' /\ b = b'.
 Proof.
@@ -159,172 +159,129 @@ Proof.
   injection E; auto.
 Qed.
 
-Lemma label_parts_inj l l' :
-  ~ In ch_colon (lpkg l) -> ~ In ch_colon (lpkg l') ->
-  lpkg l ++ ch_colon :: lname l = lpkg l' ++ ch_colon :: lname l' -> l = l'.
+Lemma nul_ne_01 : ch_nul <> ch_01.
+Proof. vm_compute. discriminate. Qed.
+Lemma c02_ne_03 : ch_02 <> ch_03.
+Proof. vm_compute. discriminate. Qed.
+
+Lemma frame_nil : frame [] = [ch_nul; ch_nul].
+Proof. reflexivity. Qed.
+Lemma frame_cons_nul r : frame (ch_nul :: r) = ch_nul :: ch_01 :: frame r.
+Proof. reflexivity. Qed.
+Lemma frame_cons_other c r : c <> ch_nul -> frame (c :: r) = c :: frame r.
+Proof. intro N. cbn [frame]. apply Ascii.eqb_neq in N. rewrite N. reflexivity. Qed.
+
+(* a framed string followed by anything decodes in one way only *)
+Definition self_delim {A} (f : A -> str) : Prop :=
+  forall a b x y, f a ++ x = f b ++ y -> a = b /\ x = y.
+
+Lemma cons_eq_inv {A} (x y : A) l l' : x :: l = y :: l' -> x = y /\ l = l'.
+Proof. intro E. injection E; auto. Qed.
+
+Lemma frame_inj : self_delim frame.
 Proof.
-  destruct l as [p n], l' as [p' n']; cbn [lpkg lname].
-  intros Hp Hp' E. apply first_split_eq in E; auto.
-  destruct E; congruence.
+  intro a. induction a as [|c a IH]; intros [|d b] x y E.
+  - rewrite !frame_nil in E. cbn [app] in E.
+    apply cons_eq_inv in E as [_ E]. apply cons_eq_inv in E as [_ E]. auto.
+  - exfalso. rewrite frame_nil in E. destruct (ascii_dec d ch_nul) as [->|N].
+    + rewrite frame_cons_nul in E. cbn [app] in E. apply cons_eq_inv in E as [_ E].
+      apply cons_eq_inv in E as [E _]. exact (nul_ne_01 E).
+    + rewrite (frame_cons_other _ _ N) in E. cbn [app] in E. apply cons_eq_inv in E as [E _]. congruence.
+  - exfalso. rewrite frame_nil in E. destruct (ascii_dec c ch_nul) as [->|N].
+    + rewrite frame_cons_nul in E. cbn [app] in E. apply cons_eq_inv in E as [_ E].
+      apply cons_eq_inv in E as [E _]. symmetry in E. exact (nul_ne_01 E).
+    + rewrite (frame_cons_other _ _ N) in E. cbn [app] in E. apply cons_eq_inv in E as [E _]. congruence.
+  - destruct (ascii_dec c ch_nul) as [->|Nc], (ascii_dec d ch_nul) as [->|Nd].
+    + rewrite !frame_cons_nul in E. cbn [app] in E. apply cons_eq_inv in E as [_ E].
+      apply cons_eq_inv in E as [_ E]. apply IH in E as [-> ->]. auto.
+    + exfalso. rewrite frame_cons_nul, (frame_cons_other _ _ Nd) in E. cbn [app] in E.
+      apply cons_eq_inv in E as [E _]. congruence.
+    + exfalso. rewrite frame_cons_nul, (frame_cons_other _ _ Nc) in E. cbn [app] in E.
+      apply cons_eq_inv in E as [E _]. congruence.
+    + rewrite (frame_cons_other _ _ Nc), (frame_cons_other _ _ Nd) in E. cbn [app] in E.
+      apply cons_eq_inv in E as [-> E]. apply IH in E as [-> ->]. auto.
 Qed.
 
-Lemma print_label_inj l l' :
-  ~ In ch_colon (lpkg l) -> ~ In ch_colon (lpkg l') -> print_label l = print_label l' -> l = l'.
+Lemma pair_self_delim {A B} (f : A -> str) (g : B -> str) :
+  self_delim f -> self_delim g -> self_delim (fun e => f (fst e) ++ g (snd e)).
 Proof.
-  unfold print_label. intros Hp Hp' E. apply app_inv_head in E.
-  apply label_parts_inj; assumption.
+  intros Hf Hg [a1 b1] [a2 b2] x y E. cbn [fst snd] in E. rewrite <- !app_assoc in E.
+  apply Hf in E as [-> E]. apply Hg in E as [-> ->]. auto.
 Qed.
 
-Lemma elem_ok_spec s : elem_ok s = true -> s <> [] /\ ~ In ch_comma s.
+Lemma fp_item_inj : self_delim fp_item.
+Proof. exact (pair_self_delim frame frame frame_inj frame_inj). Qed.
+
+Lemma enc_label_inj : self_delim enc_label.
 Proof.
-  unfold elem_ok. rewrite andb_true_iff, !negb_true_iff. intros [H1 H2]. split.
-  - destruct s; [discriminate H1 | intro; discriminate].
-  - apply mem_ch_false; exact H2.
+  intros [p1 n1] [p2 n2] x y E.
+  destruct (pair_self_delim frame frame frame_inj frame_inj (p1, n1) (p2, n2) x y E) as [E' ->].
+  injection E' as -> ->. auto.
 Qed.
 
-Lemma join_single sep x : join sep [x] = x.
+(* ------------------------------------------------------------------ decoding: lists *)
+Lemma enc_items_nil : enc_items [] = [ch_03].
+Proof. reflexivity. Qed.
+Lemma enc_items_cons e r : enc_items (e :: r) = ch_02 :: e ++ enc_items r.
 Proof. reflexivity. Qed.
 
-Lemma join_cons2 x y l : join comma (x :: y :: l) = x ++ ch_comma :: join comma (y :: l).
-Proof. reflexivity. Qed.
-
-Lemma join_nil_inv l : (forall x, In x l -> elem_ok x = true) -> join comma l = [] -> l = [].
+Lemma enc_items_map_inj {A} (f : A -> str) : self_delim f ->
+  forall l l' x y, enc_items (map f l) ++ x = enc_items (map f l') ++ y -> l = l' /\ x = y.
 Proof.
-  destruct l as [|x [|y l]]; intros Hl E; [reflexivity | |].
-  - rewrite join_single in E. destruct (elem_ok_spec x) as [N _]; [apply Hl; left; reflexivity|].
-    contradiction.
-  - rewrite join_cons2 in E. apply app_eq_nil in E as [_ E]. discriminate.
+  intros Hf l. induction l as [|a l IH]; intros [|b l'] x y E; cbn [map] in E;
+    rewrite ?enc_items_nil, ?enc_items_cons in E; cbn [app] in E;
+    apply cons_eq_inv in E as [E0 E].
+  - auto.
+  - exfalso. symmetry in E0. exact (c02_ne_03 E0).
+  - exfalso. exact (c02_ne_03 E0).
+  - rewrite <- !app_assoc in E. apply Hf in E as [-> E]. apply IH in E as [-> ->]. auto.
 Qed.
 
-Lemma join_comma_inj l :
-  forall l', (forall x, In x l -> elem_ok x = true) -> (forall x, In x l' -> elem_ok x = true) ->
-             join comma l = join comma l' -> l = l'.
+Lemma enc_list_inj : self_delim enc_list.
+Proof. intros l l' x y E. exact (enc_items_map_inj frame frame_inj l l' x y E). Qed.
+
+(* a sorted list of items is still a list of items *)
+Lemma sorted_items_inj {A} (f : A -> str) : self_delim f ->
+  forall l l' x y, enc_items (sort_strs (map f l)) ++ x = enc_items (sort_strs (map f l')) ++ y ->
+                   Permutation l l' /\ x = y.
 Proof.
-  induction l as [|x l IH]; intros l' Hl Hl' E.
-  - symmetry in E. apply join_nil_inv in E; [congruence | exact Hl'].
-  - destruct l' as [|x' l'].
-    + apply join_nil_inv in E; [exact E | exact Hl].
-    + assert (Ox : ~ In ch_comma x) by (apply elem_ok_spec, Hl; left; reflexivity).
-      assert (Ox' : ~ In ch_comma x') by (apply elem_ok_spec, Hl'; left; reflexivity).
-      destruct l as [|y l], l' as [|y' l'].
-      * rewrite !join_single in E. congruence.
-      * rewrite join_cons2, join_single in E. exfalso. apply Ox. rewrite E.
-        apply in_or_app; right; left; reflexivity.
-      * rewrite join_cons2, join_single in E. exfalso. apply Ox'. rewrite <- E.
-        apply in_or_app; right; left; reflexivity.
-      * rewrite !join_cons2 in E. apply first_split_eq in E; [|exact Ox|exact Ox'].
-        destruct E as [-> E]. f_equal.
-        apply IH; [intros; apply Hl; right; assumption
-                  | intros; apply Hl'; right; assumption | exact E].
+  intros Hf l l' x y E.
+  destruct (Permutation_map_inv f l (sort_strs_perm (map f l))) as (m & Em & Pm).
+  destruct (Permutation_map_inv f l' (sort_strs_perm (map f l'))) as (m' & Em' & Pm').
+  rewrite Em, Em' in E. apply (enc_items_map_inj f Hf) in E as [-> ->].
+  split; [|reflexivity].
+  eapply perm_trans; [exact Pm | apply Permutation_sym; exact Pm'].
 Qed.
 
-Lemma join_sort_inj l l' :
-  forallb elem_ok l = true -> forallb elem_ok l' = true ->
-  join comma (sort_strs l) = join comma (sort_strs l') -> Permutation l l'.
+Lemma sorted_list_inj l l' x y :
+  enc_list (sort_strs l) ++ x = enc_list (sort_strs l') ++ y -> Permutation l l' /\ x = y.
 Proof.
-  intros Hl Hl' E. apply sort_strs_eq_perm. apply join_comma_inj; [| |exact E].
-  - intros x Hx. apply (proj1 (forallb_forall _ _) Hl).
-    apply (Permutation_in _ (sort_strs_perm l)); exact Hx.
-  - intros x Hx. apply (proj1 (forallb_forall _ _) Hl').
-    apply (Permutation_in _ (sort_strs_perm l')); exact Hx.
+  intro E. apply enc_list_inj in E as [E ->]. split; [|reflexivity].
+  apply sort_strs_eq_perm; exact E.
 Qed.
 
-Lemma fp_ok_spec e :
-  fp_ok e = true -> ~ In ch_comma (fst e) /\ ~ In ch_eq (fst e) /\ ~ In ch_comma (snd e).
+Lemma plat_list_inj p q : plat_list p = plat_list q -> p = q.
+Proof. destruct p, q; cbn [plat_list]; congruence. Qed.
+
+(* ------------------------------------------------------------------ the definition stream decodes *)
+Lemma encode_def_inj a b : encode_def a = encode_def b ->
+  ts_label a = ts_label b /\ ts_cmd a = ts_cmd b /\
+  Permutation (ts_ins a) (ts_ins b) /\ Permutation (ts_outs a) (ts_outs b) /\
+  Permutation (ts_deps a) (ts_deps b) /\ Permutation (ts_fp a) (ts_fp b) /\
+  ts_plat a = ts_plat b.
 Proof.
-  unfold fp_ok. rewrite !andb_true_iff, !negb_true_iff. intros [[H1 H2] H3].
-  repeat split; apply mem_ch_false; assumption.
+  unfold encode_def. intro E.
+  apply enc_label_inj in E as [E1 E]. apply frame_inj in E as [E2 E].
+  apply sorted_list_inj in E as [P3 E]. apply sorted_list_inj in E as [P4 E].
+  apply sorted_list_inj in E as [P5 E].
+  apply (sorted_items_inj fp_item fp_item_inj) in E as [P6 E].
+  rewrite <- (app_nil_r (enc_list (plat_list (ts_plat a)))),
+          <- (app_nil_r (enc_list (plat_list (ts_plat b)))) in E.
+  apply enc_list_inj in E as [E7 _]. apply plat_list_inj in E7.
+  repeat split; assumption.
 Qed.
 
-Lemma kv_elem_ok e : fp_ok e = true -> elem_ok (kv e) = true.
-Proof.
-  intro Hk. destruct (fp_ok_spec e Hk) as (K1 & K2 & K3).
-  unfold elem_ok, kv. apply andb_true_iff; split; apply negb_true_iff.
-  - destruct (fst e); reflexivity.
-  - apply mem_ch_false. intro Hin. apply in_app_or in Hin as [Hin|[Hin|Hin]].
-    + contradiction.
-    + discriminate Hin.
-    + contradiction.
-Qed.
-
-Lemma kv_inj e e' : fp_ok e = true -> fp_ok e' = true -> kv e = kv e' -> e = e'.
-Proof.
-  intros Hk Hk' E. destruct (fp_ok_spec e Hk) as (_ & K2 & _).
-  destruct (fp_ok_spec e' Hk') as (_ & K2' & _).
-  unfold kv in E. apply first_split_eq in E; [|exact K2|exact K2'].
-  destruct e, e'; cbn [fst snd] in E. destruct E; congruence.
-Qed.
-
-Lemma map_kv_inj l :
-  forall l', forallb fp_ok l = true -> forallb fp_ok l' = true -> map kv l = map kv l' -> l = l'.
-Proof.
-  induction l as [|e l IH]; intros [|e' l']; cbn [map forallb]; try discriminate;
-    [reflexivity|].
-  rewrite !andb_true_iff. intros [H1 H2] [H1' H2'] E. injection E as E1 E2.
-  f_equal; [apply kv_inj; assumption | apply IH; assumption].
-Qed.
-
-Lemma forallb_perm {A} (f : A -> bool) l l' :
-  Permutation l l' -> forallb f l = true -> forallb f l' = true.
-Proof.
-  intros P Hl. apply forallb_forall. intros x Hx.
-  apply (proj1 (forallb_forall _ _) Hl). apply (Permutation_in _ (Permutation_sym P)); exact Hx.
-Qed.
-
-Lemma perm_map_kv_inv l l' :
-  forallb fp_ok l = true -> forallb fp_ok l' = true ->
-  Permutation (map kv l) (map kv l') -> Permutation l l'.
-Proof.
-  intros Hl Hl' P. apply Permutation_map_inv in P as (l3 & E & P3).
-  apply map_kv_inj in E; [subst l3; apply Permutation_sym; exact P3 | exact Hl |].
-  eapply forallb_perm; [exact P3 | exact Hl'].
-Qed.
-
-Lemma forallb_map_kv l : forallb fp_ok l = true -> forallb elem_ok (map kv l) = true.
-Proof.
-  induction l as [|e l IH]; cbn [map forallb]; [reflexivity|].
-  rewrite !andb_true_iff. intros [H1 H2]. split; [apply kv_elem_ok; exact H1 | apply IH; exact H2].
-Qed.
-
-Lemma plat_str_inj p q :
-  match p with Some [] => false | _ => true end = true ->
-  match q with Some [] => false | _ => true end = true ->
-  plat_str p = plat_str q -> p = q.
-Proof.
-  destruct p as [[|c s]|], q as [[|d t]|]; cbn [plat_str]; congruence.
-Qed.
-
-Lemma nth_error_ext {A} (l : list A) : forall l', (forall i, nth_error l i = nth_error l' i) -> l = l'.
-Proof.
-  induction l as [|x l IH]; intros [|x' l'] Hn.
-  - reflexivity.
-  - specialize (Hn 0); discriminate.
-  - specialize (Hn 0); discriminate.
-  - pose proof (Hn 0) as H0. cbn [nth_error] in H0. injection H0 as ->.
-    f_equal. apply IH. intro i. exact (Hn (S i)).
-Qed.
-
-(* contents of the files along a duplicate-free path list, equal except possibly at [p]:
-   equal concatenations force equality at [p] too *)
-Lemma concat_map_one_diff (f g : str -> str) (p : str) L :
-  NoDup L -> (forall q, In q L -> q <> p -> f q = g q) ->
-  concat (map f L) = concat (map g L) -> forall q, In q L -> f q = g q.
-Proof.
-  induction L as [|x L IH]; intros ND Hd E q Hq; [destruct Hq|].
-  inversion ND as [|? ? Hx ND']; subst.
-  cbn [map concat] in E.
-  destruct (list_eq_dec ascii_dec x p) as [->|Nx].
-  - assert (T : forall r, In r L -> f r = g r).
-    { intros r Hr. apply Hd; [right; exact Hr|]. intros ->. contradiction. }
-    rewrite (map_ext_in _ _ _ T) in E. apply app_inv_tail in E.
-    destruct Hq as [<-|Hq]; [exact E | apply T; exact Hq].
-  - assert (Ex : f x = g x) by (apply Hd; [left; reflexivity | exact Nx]).
-    destruct Hq as [<-|Hq]; [exact Ex|].
-    rewrite Ex in E. apply app_inv_head in E.
-    apply IH; [exact ND' | intros; apply Hd; [right; assumption | assumption] | exact E | exact Hq].
-Qed.
-
-(* ------------------------------------------------------------------ injectivity, guarded *)
+(* ------------------------------------------------------------------ injectivity, full strength *)
 Section Injective.
   Variable H : str -> str.
   Hypothesis H_inj : forall x y, H x = H y -> x = y.
@@ -335,7 +292,7 @@ Section Injective.
     change_key H fa a = change_key H fb b ->
     encode_def a = encode_def b /\
     (no_inputs a = no_inputs b) /\
-    (no_inputs a = false -> encode_files fa a = encode_files fb b).
+    (no_inputs a = false -> encode_files H fa a = encode_files H fb b).
   Proof.
     unfold change_key. destruct (no_inputs a) eqn:Na, (no_inputs b) eqn:Nb; intro E.
     - apply H_inj in E. split; [exact E|]. split; [reflexivity | discriminate].
@@ -348,180 +305,51 @@ Section Injective.
       intros _. exact E2.
   Qed.
 
-  Lemma concat_differ_one (l l' : list str) :
-    length l = length l' -> concat l = concat l' -> differ_at_most_one l l' -> l = l'.
+  (* one input: path, presence, digest of the content *)
+  Lemma file_item_inj fa fb p q x y :
+    file_item H fa p ++ x = file_item H fb q ++ y -> p = q /\ fa p = fb q /\ x = y.
   Proof.
-    revert l'; induction l as [|x l IH]; intros [|x' l'] Hlen Hc [k Hk];
-      try discriminate; try reflexivity.
-    cbn [concat] in Hc. cbn [length] in Hlen.
-    destruct k as [|k].
-    - assert (E : l = l').
-      { apply nth_error_ext. intro i. apply (Hk (S i)). discriminate. }
-      subst l'. apply app_inv_tail in Hc. congruence.
-    - assert (E : x = x').
-      { assert (H0 : 0 <> S k) by discriminate. apply Hk in H0. cbn [nth_error] in H0. congruence. }
-      subst x'. apply app_inv_head in Hc. f_equal.
-      apply IH; [lia | exact Hc |]. exists k. intros i Hi. apply (Hk (S i)). lia.
+    unfold file_item. rewrite <- !app_assoc. intro E. apply frame_inj in E as [<- E].
+    split; [reflexivity|].
+    destruct (fa p) as [ca|], (fb p) as [cb|]; cbn [app] in E; apply cons_eq_inv in E as [E0 E].
+    - apply frame_inj in E as [E ->]. apply H_inj in E. subst cb. auto.
+    - exfalso. symmetry in E0. exact (nul_ne_01 E0).
+    - exfalso. exact (nul_ne_01 E0).
+    - auto.
   Qed.
 
-  (* a single changed component, with decodable elements, always changes the key; a single
-     changed input file likewise *)
-  Theorem key_single_change_sensitive fa a fb b :
-    wf_state a = true -> wf_state b = true ->
-    change_key H fa a = change_key H fb b ->
-    differ_at_most_one (comps a) (comps b) ->
-    NoDup (ts_ins a) ->
-    (Permutation (ts_ins a) (ts_ins b) -> files_differ_at_most_one fa fb (ts_ins a)) ->
-    state_equiv fa a fb b.
+  Lemma files_stream_inj fa fb L :
+    concat (map (file_item H fa) L) = concat (map (file_item H fb) L) ->
+    forall p, In p L -> fa p = fb p.
   Proof.
-    intros Wa Wb K D ND F.
-    destruct (key_streams _ _ _ _ K) as (Ed & Eni & Ef).
-    assert (C : comps a = comps b).
-    { apply concat_differ_one; [reflexivity | exact Ed | exact D]. }
-    assert (C1 : print_label (ts_label a) = print_label (ts_label b))
-      by exact (f_equal (fun l => nth 0 l []) C).
-    unfold comps in C. injection C as _ C2 C3 C4 C5 C6 C7.
-    unfold wf_state in Wa, Wb. rewrite !andb_true_iff in Wa, Wb.
-    destruct Wa as (((((Wa1 & Wa2) & Wa3) & Wa4) & Wa5) & Wa6).
-    destruct Wb as (((((Wb1 & Wb2) & Wb3) & Wb4) & Wb5) & Wb6).
-    apply negb_true_iff, mem_ch_false in Wa1. apply negb_true_iff, mem_ch_false in Wb1.
-    assert (P3 : Permutation (ts_ins a) (ts_ins b)) by (apply join_sort_inj; assumption).
-    split; [apply print_label_inj; assumption|].
-    split; [exact C2|].
-    split; [exact P3|].
-    split; [apply join_sort_inj; assumption|].
-    split; [apply join_sort_inj; assumption|].
-    split.
-    { apply perm_map_kv_inv; [assumption | assumption |].
-      apply join_sort_inj; [apply forallb_map_kv; assumption | apply forallb_map_kv; assumption | exact C6]. }
-    split; [apply plat_str_inj; assumption|].
+    induction L as [|q L IH]; intros E p Hp; [destruct Hp|].
+    cbn [map concat] in E. apply file_item_inj in E as (_ & Eq & E).
+    destruct Hp as [<-|Hp]; [exact Eq | apply IH; assumption].
+  Qed.
+
+  (* equal keys only for equal build states *)
+  Theorem key_injective fa a fb b :
+    change_key H fa a = change_key H fb b -> state_equiv fa a fb b.
+  Proof.
+    intro K. destruct (key_streams _ _ _ _ K) as (Ed & Eni & Ef).
+    destruct (encode_def_inj _ _ Ed) as (E1 & E2 & P3 & P4 & P5 & P6 & E7).
+    repeat (split; [assumption|]).
     intros q Hq.
     destruct (no_inputs a) eqn:Na.
     { unfold no_inputs in Na. destruct (ts_ins a); [destruct Hq | discriminate]. }
-    specialize (Ef eq_refl). destruct (F P3) as (p & Fd & Fp).
-    unfold encode_files, file_parts in Ef.
+    specialize (Ef eq_refl). unfold encode_files in Ef.
     rewrite <- (sort_strs_canonical _ _ P3) in Ef.
-    assert (FB : forall r, In r (sort_strs (ts_ins a)) -> file_bytes fa r = file_bytes fb r).
-    { apply (concat_map_one_diff _ _ p).
-      - eapply Permutation_NoDup; [apply Permutation_sym, sort_strs_perm | exact ND].
-      - intros r Hr Nr. unfold file_bytes. rewrite (Fd r); [reflexivity | | exact Nr].
-        apply (Permutation_in _ (sort_strs_perm _)); exact Hr.
-      - exact Ef. }
-    destruct (list_eq_dec ascii_dec q p) as [->|Nq]; [|apply Fd; assumption].
-    assert (Hb : file_bytes fa p = file_bytes fb p).
-    { apply FB. apply (Permutation_in _ (Permutation_sym (sort_strs_perm _))); exact Hq. }
-    unfold file_bytes in Hb. destruct (fa p) as [ca|], (fb p) as [cb|].
-    - congruence.
-    - destruct Fp as [_ Fp]. specialize (Fp eq_refl). discriminate.
-    - destruct Fp as [Fp _]. specialize (Fp eq_refl). discriminate.
-    - reflexivity.
+    apply (files_stream_inj fa fb _ Ef).
+    apply (Permutation_in _ (Permutation_sym (sort_strs_perm _))); exact Hq.
   Qed.
+
+  (* in particular: different labels, different keys *)
+  Corollary key_label fa a fb b : change_key H fa a = change_key H fb b -> ts_label a = ts_label b.
+  Proof. intro K. exact (proj1 (key_injective fa a fb b K)). Qed.
 End Injective.
 
-(* ------------------------------------------------------------------ refutations: collisions that hold
-   for EVERY digest function, because the hashed byte streams are literally equal *)
-Definition collides (fa : str -> option str) (a : tstate) (fb : str -> option str) (b : tstate) : Prop :=
-  ~ state_equiv fa a fb b /\ forall H : str -> str, change_key H fa a = change_key H fb b.
-
-Definition s1 (c : ascii) : str := [c].
-Definition La : label := mkLabel (s1 "p") (s1 "a").
-Definition nofs : str -> option str := fun _ => None.
-Definition T0 (l : label) (cmd : str) ins outs deps fp plat := mkT l cmd ins outs deps fp plat.
-Definition linux : option str := Some ["l"; "x"]%char.
-
-(* label | command boundary *)
-Theorem collision_label_command :
-  collides nofs (mkT (mkLabel (s1 "p") (s1 "a")) ["b"; "c"]%char [] [] [] [] linux)
-           nofs (mkT (mkLabel (s1 "p") ["a"; "b"]%char) (s1 "c") [] [] [] [] linux).
-Proof.
-  split.
-  - intros (E1 & _). cbv in E1. discriminate E1.
-  - intro H. vm_compute. reflexivity.
-Qed.
-
-(* list element containing the separator *)
-Theorem collision_separator_in_element :
-  collides nofs (mkT La [] [] [["a"; ","; "b"]%char] [] [] linux)
-           nofs (mkT La [] [] [s1 "a"; s1 "b"] [] [] linux).
-Proof.
-  split.
-  - intros (_ & _ & _ & P & _). apply Permutation_length in P. discriminate P.
-  - intro H. vm_compute. reflexivity.
-Qed.
-
-(* fingerprint key/value shift around '=' *)
-Theorem collision_fingerprint_shift :
-  collides nofs (mkT La [] [] [] [] [(s1 "a", ["b"; "="; "c"]%char)] linux)
-           nofs (mkT La [] [] [] [] [(["a"; "="; "b"]%char, s1 "c")] linux).
-Proof.
-  split.
-  - intros (_ & _ & _ & _ & _ & P & _). cbn [ts_fp] in P.
-    apply Permutation_length_1 in P. cbv in P. discriminate P.
-  - intro H. vm_compute. reflexivity.
-Qed.
-
-(* outputs | dependency hashes boundary *)
-Theorem collision_outputs_deps :
-  collides nofs (mkT La [] [] [s1 "x"] [] [] linux)
-           nofs (mkT La [] [] [] [s1 "x"] [] linux).
-Proof.
-  split.
-  - intros (_ & _ & _ & P & _). apply Permutation_length in P. discriminate P.
-  - intro H. vm_compute. reflexivity.
-Qed.
-
-(* end of one input file / start of the next *)
-Definition fs_xy_z : str -> option str :=
-  fun p => if str_eqb p (s1 "a") then Some ["x"; "y"]%char else if str_eqb p (s1 "b") then Some (s1 "z") else None.
-Definition fs_x_yz : str -> option str :=
-  fun p => if str_eqb p (s1 "a") then Some (s1 "x") else if str_eqb p (s1 "b") then Some ["y"; "z"]%char else None.
-Theorem collision_file_boundary :
-  collides fs_xy_z (mkT La [] [s1 "a"; s1 "b"] [] [] [] linux)
-           fs_x_yz (mkT La [] [s1 "a"; s1 "b"] [] [] [] linux).
-Proof.
-  split.
-  - intros (_ & _ & _ & _ & _ & _ & _ & F).
-    specialize (F (s1 "a") (or_introl eq_refl)). vm_compute in F. discriminate F.
-  - intro H. vm_compute. reflexivity.
-Qed.
-
-(* absent vs empty literal input *)
-Definition fs_a_empty : str -> option str := fun p => if str_eqb p (s1 "a") then Some [] else None.
-Theorem collision_absent_vs_empty :
-  collides nofs (mkT La [] [s1 "a"] [] [] [] linux)
-           fs_a_empty (mkT La [] [s1 "a"] [] [] [] linux).
-Proof.
-  split.
-  - intros (_ & _ & _ & _ & _ & _ & _ & F).
-    specialize (F (s1 "a") (or_introl eq_refl)). vm_compute in F. discriminate F.
-  - intro H. vm_compute. reflexivity.
-Qed.
-
-(* an alias in-edge leaves "" in the dependency-hash list: indistinguishable from no dependency *)
-Theorem collision_alias_dep_empty :
-  collides nofs (mkT La [] [] [] [[]] [] linux)
-           nofs (mkT La [] [] [] [] [] linux).
-Proof.
-  split.
-  - intros (_ & _ & _ & _ & P & _). apply Permutation_length in P. discriminate P.
-  - intro H. vm_compute. reflexivity.
-Qed.
-
-(* non-vacuity of the guarded theorem: a well-formed pair that differs in one component *)
-Example single_change_nonvacuous :
-  let a := mkT La (s1 "c") [s1 "i"] [s1 "o"] [s1 "d"] [(s1 "k", s1 "v")] linux in
-  let b := mkT La (s1 "d") [s1 "i"] [s1 "o"] [s1 "d"] [(s1 "k", s1 "v")] linux in
-  wf_state a = true /\ wf_state b = true /\ differ_at_most_one (comps a) (comps b).
-Proof.
-  intros a b. split; [vm_compute; reflexivity|]. split; [vm_compute; reflexivity|].
-  exists 1. intros [|[|i]] Hi.
-  - reflexivity.
-  - contradiction.
-  - reflexivity.
-Qed.
-
-(* H := identity-with-hex is not needed: the hypotheses are satisfiable by an injective,
-   '_'-free encoder, e.g. doubling every byte into two hex digits *)
+(* ------------------------------------------------------------------ the hypotheses on the digest are satisfiable:
+   an injective, '_'-free encoder, e.g. doubling every byte into two hex digits *)
 Definition hexdigit (n : nat) : ascii := ascii_of_nat (if n <? 10 then 48 + n else 87 + n).
 Definition hex_enc (s : str) : str :=
   flat_map (fun c => [hexdigit (nat_of_ascii c / 16); hexdigit (nat_of_ascii c mod 16)]) s.
@@ -558,4 +386,66 @@ Proof.
   induction x as [|c x IH]; [intros []|].
   rewrite hex_enc_cons. destruct (hexdigit_no_us c) as [N1 N2].
   intros [Hi|[Hi|Hi]]; [apply N1; exact Hi | apply N2; exact Hi | apply IH; exact Hi].
+Qed.
+
+(* ------------------------------------------------------------------ the former collision classes
+   (one witness per class of the unframed encoding: the hashed byte streams were literally equal,
+   whatever the digest) now receive different keys; checked by the kernel with the digest hex_enc *)
+Definition s1 (c : ascii) : str := [c].
+Definition La : label := mkLabel (s1 "p") (s1 "a").
+Definition nofs : str -> option str := fun _ => None.
+Definition linux : option str := Some ["l"; "x"]%char.
+Definition fs_xy_z : str -> option str :=
+  fun p => if str_eqb p (s1 "a") then Some ["x"; "y"]%char else if str_eqb p (s1 "b") then Some (s1 "z") else None.
+Definition fs_x_yz : str -> option str :=
+  fun p => if str_eqb p (s1 "a") then Some (s1 "x") else if str_eqb p (s1 "b") then Some ["y"; "z"]%char else None.
+Definition fs_a_empty : str -> option str := fun p => if str_eqb p (s1 "a") then Some [] else None.
+
+Definition keys_differ (fa : str -> option str) (a : tstate) (fb : str -> option str) (b : tstate) : Prop :=
+  change_key hex_enc fa a <> change_key hex_enc fb b.
+
+Lemma keys_differ_by_compute fa a fb b :
+  str_eqb (change_key hex_enc fa a) (change_key hex_enc fb b) = false -> keys_differ fa a fb b.
+Proof. intro E. apply str_eqb_neq. exact E. Qed.
+
+Theorem former_collisions_now_differ :
+  (* label | command boundary *)
+  keys_differ nofs (mkT (mkLabel (s1 "p") (s1 "a")) ["b"; "c"]%char [] [] [] [] linux)
+              nofs (mkT (mkLabel (s1 "p") ["a"; "b"]%char) (s1 "c") [] [] [] [] linux) /\
+  (* package | name boundary of the printed label *)
+  keys_differ nofs (mkT (mkLabel ["a"; ":"; "b"]%char (s1 "c")) [] [] [] [] [] linux)
+              nofs (mkT (mkLabel (s1 "a") ["b"; ":"; "c"]%char) [] [] [] [] [] linux) /\
+  (* list element containing the old separator *)
+  keys_differ nofs (mkT La [] [] [["a"; ","; "b"]%char] [] [] linux)
+              nofs (mkT La [] [] [s1 "a"; s1 "b"] [] [] linux) /\
+  (* fingerprint key/value shift around '=' *)
+  keys_differ nofs (mkT La [] [] [] [] [(s1 "a", ["b"; "="; "c"]%char)] linux)
+              nofs (mkT La [] [] [] [] [(["a"; "="; "b"]%char, s1 "c")] linux) /\
+  (* outputs | dependency contributions boundary *)
+  keys_differ nofs (mkT La [] [] [s1 "x"] [] [] linux) nofs (mkT La [] [] [] [s1 "x"] [] linux) /\
+  (* end of one input file / start of the next *)
+  keys_differ fs_xy_z (mkT La [] [s1 "a"; s1 "b"] [] [] [] linux)
+              fs_x_yz (mkT La [] [s1 "a"; s1 "b"] [] [] [] linux) /\
+  (* absent vs empty literal input *)
+  keys_differ nofs (mkT La [] [s1 "a"] [] [] [] linux) fs_a_empty (mkT La [] [s1 "a"] [] [] [] linux) /\
+  (* an empty list element vs no element *)
+  keys_differ nofs (mkT La [] [] [] [[]] [] linux) nofs (mkT La [] [] [] [] [] linux) /\
+  (* fingerprint | platform boundary *)
+  keys_differ nofs (mkT La [] [] [] [] [(s1 "k", s1 "v")] linux)
+              nofs (mkT La [] [] [] [] [(s1 "k", ["v"; "l"; "x"]%char)] None).
+Proof.
+  repeat split; apply keys_differ_by_compute; vm_compute; reflexivity.
+Qed.
+
+(* non-vacuity of key_injective: a pair of states that are equivalent without being equal (every
+   list permuted) shares its key under the injective digest *)
+Example injective_nonvacuous :
+  let a := mkT La (s1 "c") [s1 "i"; s1 "j"] [s1 "o"; s1 "q"] [s1 "d"; s1 "e"] [(s1 "k", s1 "v"); (s1 "l", s1 "w")] linux in
+  let b := mkT La (s1 "c") [s1 "j"; s1 "i"] [s1 "q"; s1 "o"] [s1 "e"; s1 "d"] [(s1 "l", s1 "w"); (s1 "k", s1 "v")] linux in
+  a <> b /\ change_key hex_enc fs_xy_z a = change_key hex_enc fs_xy_z b /\ state_equiv fs_xy_z a fs_xy_z b.
+Proof.
+  intros a b.
+  assert (K : change_key hex_enc fs_xy_z a = change_key hex_enc fs_xy_z b) by (vm_compute; reflexivity).
+  split; [intro E; discriminate E|]. split; [exact K|].
+  exact (key_injective hex_enc hex_enc_inj hex_enc_no_us _ _ _ _ K).
 Qed.
